@@ -132,17 +132,21 @@ class JSONPointer:
         )[1:]
 
     def _index(self, s: str) -> Union[str, int]:
-        # Reject non-zero ints that start with a zero.
-        if len(s) > 1 and s.startswith("0"):
+        # An array index is "0" or digits without a leading zero, optionally
+        # negative. Everything else is a name, including strings that `int()`
+        # would accept, like "+1", " 1", "1_0" or non-ASCII digits.
+        digits = s[1:] if s.startswith("-") else s
+        if (
+            not digits.isascii()
+            or not digits.isdigit()
+            or (digits.startswith("0") and s != "0")
+        ):
             return s
 
-        try:
-            index = int(s)
-            if index < self.min_int_index or index > self.max_int_index:
-                raise JSONPointerIndexError("index out of range")
-            return index
-        except ValueError:
-            return s
+        index = int(s)
+        if index < self.min_int_index or index > self.max_int_index:
+            raise JSONPointerIndexError("index out of range")
+        return index
 
     def _getitem(self, obj: Any, key: Any) -> Any:  # noqa: PLR0912
         if isinstance(obj, str):
